@@ -3,8 +3,10 @@
 import itertools
 import random
 
+import pyrsistent
+
 from eliot import add_destinations, remove_destination
-from eliot.parse import Parser, WrittenAction
+from eliot.parse import Parser, Task, WrittenAction
 
 from vf import gen
 from vf.interp import Interp
@@ -43,7 +45,14 @@ def feed(order):
     for step, m in enumerate(order):
         done, parser = parser.add(m)
         for t in done:
+            if not isinstance(t, Task):
+                raise AssertionError("Parser.add returned %r among the completed tasks" % (t,))
             completed.append((step, t))
+        # the returned list is the caller's: collecting results by extending / emptying it is ordinary use and must not matter later
+        if step % 2:
+            done.append("the caller's own bookkeeping")
+        else:
+            del done[:]
     return completed, parser
 
 
@@ -228,10 +237,12 @@ def run_case(spec):
             inter.remove(dropped)
         consumed = [0]
 
+        as_pmap = spec["i"] % 3 == 1  # messages handed over as immutable mappings (WrittenMessage.as_dict() / pyrsistent.freeze give these)
+
         def stream():
             for m in inter:
                 consumed[0] += 1
-                yield m
+                yield (pyrsistent.freeze(m) if as_pmap else m)
         seen = {}
         lastpos = {}
         for idx, m in enumerate(inter):
